@@ -96,12 +96,14 @@ def build_spec(h):
     return {"glyphs": glyphs, "order": order, "info": info, "lib": lib}, src
 
 
-def compile_font(spec, flavour):
+def compile_font(spec, flavour, opt=1):
+    """optimizeCFF=1 (specialise, no subroutiniser: 60 ms saved per state) except in the few
+    "subr" states that run the default pipeline (optimizeCFF=2, cffsubr)."""
     import ufo2ft
     font = B.build_font(spec)
     if flavour == "ttf":
         return ufo2ft.compileTTF(font)
-    return ufo2ft.compileOTF(font, optimizeCFF=1, cffVersion=1 if flavour == "otf" else 2)
+    return ufo2ft.compileOTF(font, optimizeCFF=opt, cffVersion=1 if flavour == "otf" else 2)
 
 
 def save(tt):
@@ -264,9 +266,9 @@ class C04(Property):
         # the 6-op sub-alphabet (advance x {none, box}) are continued to `small`
         if tier == "quick":
             return {"depth": 6, "base": {"full": 3, "small": 5}, "vertical": {"full": 3, "small": 3},
-                    "all": {"full": 2, "small": 2}, "v_maxlen": 3, "cp_maxlen": 3}
+                    "all": {"full": 2, "small": 2}, "v_maxlen": 3, "cp_maxlen": 3, "subr_len": 1}
         return {"depth": 6, "base": {"full": 5, "small": 5}, "vertical": {"full": 4, "small": 4},
-                "all": {"full": 3, "small": 3}, "v_maxlen": 4, "cp_maxlen": 4}
+                "all": {"full": 3, "small": 3}, "v_maxlen": 4, "cp_maxlen": 4, "subr_len": 2}
 
     def initial(self, b):
         out = []
@@ -279,6 +281,11 @@ class C04(Property):
                             fam = "vertical" if v else "base"
                         out.append([{"part": "h", "flavour": fl, "vertical": v, "notdef": nd, "keep": k,
                                      "full": b[fam]["full"], "small": b[fam]["small"]}])
+        # the default CFF pipeline (subroutinised with cffsubr) on the shortest fonts
+        for fl in ("otf", "cff2"):
+            for nd in NOTDEFS:
+                out.append([{"part": "h", "flavour": fl, "vertical": False, "notdef": nd, "keep": True,
+                             "full": 0, "small": b["subr_len"], "opt": 2}])
         for fl in FLAVOURS:
             for nd in ("explicit", "synth"):
                 out.append([{"part": "v", "flavour": fl, "vertical": True, "notdef": nd, "keep": True,
@@ -319,7 +326,18 @@ class C04(Property):
             if len(viols) < 10:
                 viols.append(violation(kind, dict(feat0, **(feats or {})), config=cfg, **detail))
 
-        otf = compile_font(spec, flavour)
+        opt = cfg.get("opt", 1)
+        if opt != 1:
+            feat0["opt"] = opt
+            ctrs["default_subroutinised_pipeline"] = 1
+        efeat = {"glyphs": len(spec["glyphs"]) + (0 if ".notdef" in spec["glyphs"] else 1),
+                 "notdef": cfg["notdef"],
+                 "outlines": cfg["notdef"] != "empty" or any(x["kind"] != "none" for x in src.values())}
+        try:
+            otf = compile_font(spec, flavour, opt)
+        except Exception as e:  # "can be compiled and saved" is the property: classify, do not crash
+            bad("cannot-compile", dict(efeat, type=type(e).__name__), message=str(e)[:300])
+            return Result(viols, ctrs, "cannot-compile", 1, False, 0)
         want_order = ([] if ".notdef" in spec["glyphs"] else [".notdef"]) + list(spec["glyphs"])
 
         # ---- values computed by ufo2ft itself (fontTools recalculates several of them on save)
@@ -341,7 +359,11 @@ class C04(Property):
         mem_order = otf.getGlyphOrder()
 
         # ---- serialisation round trips ---------------------------------------------------------
-        b1 = save(otf)
+        try:
+            b1 = save(otf)
+        except Exception as e:
+            bad("cannot-save", dict(efeat, type=type(e).__name__), message=str(e)[:300])
+            return Result(viols, ctrs, "cannot-save", 1, False, 0)
         tt = TTFont(io.BytesIO(b1))
         b2 = save(tt)
         if b2 != b1:
